@@ -62,11 +62,19 @@ func traverse(context Context, matchingNode *CandidateNode, operation *Operation
 
 	case AliasNode:
 		log.Debug("its an alias!")
+		if matchingNode.Alias == nil {
+			return nil, unresolvedAliasError(matchingNode)
+		}
 		matchingNode = matchingNode.Alias
 		return traverse(context, matchingNode, operation)
 	default:
 		return list.New(), nil
 	}
+}
+
+// an alias made by `alias = "name"` carries a name only, not the node the name stands for
+func unresolvedAliasError(node *CandidateNode) error {
+	return fmt.Errorf("cannot follow alias *%v: it was set by name and refers to no node", node.Value)
 }
 
 func traverseArrayOperator(d *dataTreeNavigator, context Context, expressionNode *ExpressionNode) (Context, error) {
@@ -141,6 +149,9 @@ func traverseArrayIndices(context Context, matchingNode *CandidateNode, indicesT
 	}
 
 	if matchingNode.Kind == AliasNode {
+		if matchingNode.Alias == nil {
+			return nil, unresolvedAliasError(matchingNode)
+		}
 		matchingNode = matchingNode.Alias
 		return traverseArrayIndices(context, matchingNode, indicesToTraverse, prefs)
 	} else if matchingNode.Kind == SequenceNode {
@@ -319,6 +330,9 @@ func doTraverseMergedMap(newMatches *orderedmap.OrderedMap, node *CandidateNode,
 func traverseMergeAnchor(newMatches *orderedmap.OrderedMap, value *CandidateNode, wantedKey string, prefs traversePreferences, splat bool, mergedFrom []*CandidateNode) error {
 	switch value.Kind {
 	case AliasNode:
+		if value.Alias == nil {
+			return unresolvedAliasError(value)
+		}
 		if value.Alias.Kind != MappingNode {
 			return fmt.Errorf("can only use merge anchors with maps (!!map), but got %v", value.Alias.Tag)
 		}
